@@ -14,3 +14,431 @@ Proof.
   destruct (f_hours (rel d) =? 0), (f_minutes (rel d) =? 0), (f_seconds (rel d) =? 0),
            (f_us (rel d) =? 0); reflexivity.
 Qed.
+
+(* ---------------------------------------------------------------- the time line *)
+Lemma lin_date_of_ord n : lin (date_of_ord n) = n.
+Proof.
+  unfold date_of_ord. pose proof (ord_of_ymd_of_ord n) as H.
+  destruct (ymd_of_ord n) as [[y m] d]. cbn [lin]. lia.
+Qed.
+
+Lemma ord_of_date_of_ord n : ord_of (date_of_ord n) = n.
+Proof.
+  unfold date_of_ord. pose proof (ord_of_ymd_of_ord n) as H.
+  destruct (ymd_of_ord n) as [[y m] d]. cbn [ord_of]. lia.
+Qed.
+
+Lemma tod_split t : 0 <= t ->
+  tod (t / 3600000000) ((t / 60000000) mod 60) ((t / us_sec) mod 60) (t mod us_sec) = t.
+Proof. intros H. unfold tod, us_sec. lia. Qed.
+
+Lemma lin_dt_of_lin l : lin (dt_of_lin l) = l.
+Proof.
+  unfold dt_of_lin. pose proof (ord_of_ymd_of_ord (l / us_day + 1)) as H.
+  destruct (ymd_of_ord (l / us_day + 1)) as [[y m] d]. cbn [lin].
+  rewrite tod_split by (unfold us_day; lia).
+  destruct H as [H _]. rewrite H. unfold us_day. lia.
+Qed.
+
+Lemma ord_of_dt_of_lin l : ord_of (dt_of_lin l) = l / us_day + 1.
+Proof.
+  unfold dt_of_lin. pose proof (ord_of_ymd_of_ord (l / us_day + 1)) as H.
+  destruct (ymd_of_ord (l / us_day + 1)) as [[y m] d]. cbn [ord_of]. tauto.
+Qed.
+
+Lemma is_datetime_date_of_ord n : is_datetime (date_of_ord n) = false.
+Proof. unfold date_of_ord. destruct (ymd_of_ord n) as [[y m] d]. reflexivity. Qed.
+
+Lemma is_datetime_dt_of_lin l : is_datetime (dt_of_lin l) = true.
+Proof. unfold dt_of_lin. destruct (ymd_of_ord _) as [[y m] d]. reflexivity. Qed.
+
+(* ---------------------------------------------------------------- step 4: counting = the % 7 formula *)
+Lemma walk_fwd fuel : forall o w k, 0 <= w <= 6 -> 1 <= k ->
+  (w - weekday_of_ord o) mod 7 + 7 * (k - 1) + 1 <= Z.of_nat fuel ->
+  walk fuel 1 o w k = Some (o + ((w - weekday_of_ord o) mod 7 + 7 * (k - 1))).
+Proof.
+  induction fuel as [|f IH]; intros o w k Hw Hk Hf.
+  - exfalso. change (Z.of_nat 0) with 0 in Hf. lia.
+  - cbn [walk]. rewrite Nat2Z.inj_succ in Hf.
+    destruct (weekday_of_ord o =? w) eqn:E.
+    + destruct (k <=? 1) eqn:K.
+      * f_equal. unfold weekday_of_ord in *. lia.
+      * rewrite IH; [f_equal | lia | lia |]; unfold weekday_of_ord in *; lia.
+    + rewrite IH; [f_equal | lia | lia |]; unfold weekday_of_ord in *; lia.
+Qed.
+
+Lemma walk_bwd fuel : forall o w k, 0 <= w <= 6 -> 1 <= k ->
+  (weekday_of_ord o - w) mod 7 + 7 * (k - 1) + 1 <= Z.of_nat fuel ->
+  walk fuel (-1) o w k = Some (o - ((weekday_of_ord o - w) mod 7 + 7 * (k - 1))).
+Proof.
+  induction fuel as [|f IH]; intros o w k Hw Hk Hf.
+  - exfalso. change (Z.of_nat 0) with 0 in Hf. lia.
+  - cbn [walk]. rewrite Nat2Z.inj_succ in Hf.
+    destruct (weekday_of_ord o =? w) eqn:E.
+    + destruct (k <=? 1) eqn:K.
+      * f_equal. unfold weekday_of_ord in *. lia.
+      * rewrite IH; [f_equal | lia | lia |]; unfold weekday_of_ord in *; lia.
+    + rewrite IH; [f_equal | lia | lia |]; unfold weekday_of_ord in *; lia.
+Qed.
+
+(* the signed number of days the code jumps *)
+Definition jump_days (wdret w nth : Z) : Z :=
+  if 0 <? nth then (Z.abs nth - 1) * 7 + (7 - wdret + w) mod 7
+  else ((Z.abs nth - 1) * 7 + (wdret - w) mod 7) * -1.
+
+Lemma nth_weekday_jump o w n : 0 <= w <= 6 -> n <> 0 ->
+  nth_weekday o w n = Some (o + jump_days (weekday_of_ord o) w n).
+Proof.
+  intros Hw Hn. unfold nth_weekday, jump_days. destruct (0 <? n) eqn:E.
+  - rewrite walk_fwd; [f_equal | lia | lia |]; pose proof (weekday_of_ord_range o); lia.
+  - rewrite walk_bwd; [f_equal | lia | lia |]; pose proof (weekday_of_ord_range o); lia.
+Qed.
+
+Lemma eff_n_py_or n : eff_n n = py_or n 1.
+Proof. destruct n; reflexivity. Qed.
+
+Lemma eff_n_nonzero n : eff_n n <> 0.
+Proof. unfold eff_n. destruct n as [v|]; [destruct (v =? 0) eqn:E|]; lia. Qed.
+
+(* ---------------------------------------------------------------- values on the time line *)
+Definition on_line (o : pydt) : Prop :=
+  match o with
+  | PD _ _ _ => 1 <= lin o <= max_ord
+  | PDT _ _ _ _ _ _ _ => 0 <= lin o < lin_max_dt
+  end.
+
+Lemma tod_range hh mi ss us : valid_time hh mi ss us = true -> 0 <= tod hh mi ss us < us_day.
+Proof. unfold valid_time, tod, us_sec, us_day. lia. Qed.
+
+Lemma valid_on_line o : valid_dt o = true -> on_line o.
+Proof.
+  destruct o as [y m d | y m d hh mi ss us]; cbn [valid_dt on_line lin]; intros V.
+  - apply ord_of_ymd_range; exact V.
+  - apply andb_prop in V. destruct V as [V1 V2].
+    pose proof (ord_of_ymd_range _ _ _ V1). pose proof (tod_range _ _ _ _ V2).
+    unfold lin_max_dt, max_ord, us_day in *. lia.
+Qed.
+
+Lemma at_lin_on_line like l r : at_lin like l = Some r ->
+  on_line r /\ lin r = l /\ is_datetime r = is_datetime like.
+Proof.
+  unfold at_lin. destruct like as [y m d | y m d hh mi ss us].
+  - destruct (_ && _) eqn:E; [|discriminate]. intros H; injection H as <-.
+    unfold on_line. pose proof (lin_date_of_ord l) as L. pose proof (is_datetime_date_of_ord l) as K.
+    destruct (date_of_ord l); [|discriminate]. cbn [is_datetime]. lia.
+  - destruct (_ && _) eqn:E; [|discriminate]. intros H; injection H as <-.
+    unfold on_line. pose proof (lin_dt_of_lin l) as L. pose proof (is_datetime_dt_of_lin l) as K.
+    destruct (dt_of_lin l); [discriminate|]. cbn [is_datetime]. lia.
+Qed.
+
+(* one exact duration: [timedelta] construction + [date/datetime + timedelta] = a move on the line *)
+Lemma add_dur base U : on_line base ->
+  res_opt (bind (mk_timedelta U) (dt_add_us base)) =
+  at_lin base (lin base + match base with PD _ _ _ => U / us_day | PDT _ _ _ _ _ _ _ => U end).
+Proof.
+  intros L. unfold mk_timedelta.
+  destruct ((-999999999 <=? U / us_day) && (U / us_day <=? 999999999)) eqn:E; cbn [bind].
+  - unfold dt_add_us, at_lin. destruct base;
+    match goal with |- context [if ?c then Ok _ else _] => destruct c end; reflexivity.
+  - cbn [res_opt]. symmetry. unfold at_lin, on_line in *.
+    destruct base; unfold lin_max_dt, max_ord, us_day in *;
+    match goal with |- (if ?c then _ else _) = _ => destruct c eqn:E2 end; try reflexivity; exfalso; lia.
+Qed.
+
+(* ---------------------------------------------------------------- step 4 of the model *)
+Definition spec_wd (d : rd) (ret : pydt) : option pydt :=
+  match wd d with
+  | None => Some ret
+  | Some (w, n) =>
+      match nth_weekday (ord_of ret) w (eff_n n) with
+      | None => None
+      | Some target => at_lin ret (lin ret + (target - ord_of ret) * day_unit ret)
+      end
+  end.
+
+Lemma stage_wd_spec d ret : on_line ret ->
+  match wd d with Some (w, _) => (0 <=? w) && (w <=? 6) | None => true end = true ->
+  res_opt (stage_wd d ret) = spec_wd d ret.
+Proof.
+  intros L W. unfold stage_wd, spec_wd. destruct (wd d) as [[w n]|]; [|reflexivity].
+  rewrite nth_weekday_jump by (try apply eff_n_nonzero; lia).
+  rewrite eff_n_py_or.
+  set (J := jump_days (weekday_of_ord (ord_of ret)) w (py_or n 1)).
+  assert (EJ : (let nth := py_or n 1 in
+                let jump := (Z.abs nth - 1) * 7 in
+                if 0 <? nth then jump + (7 - py_weekday ret + w) mod 7
+                else (jump + (py_weekday ret - w) mod 7) * -1) = J).
+  { unfold J, jump_days, py_weekday. cbv zeta. reflexivity. }
+  cbv zeta in EJ |- *. rewrite EJ. rewrite add_dur by exact L.
+  f_equal. destruct ret; cbn [day_unit]; unfold us_day; lia.
+Qed.
+
+(* ---------------------------------------------------------------- steps 1-2 of the model *)
+Definition nonzero (v : Z) : bool := negb (v =? 0).
+Definition is_month (v : Z) : bool := (1 <=? v) && (v <=? 12).
+
+Lemma py_or_oget a b : opt_ok (fun v => negb (v =? 0)) a = true -> py_or a b = oget a b.
+Proof. destruct a as [v|]; cbn; [|reflexivity]. intros H. destruct (v =? 0); [discriminate|reflexivity]. Qed.
+
+Lemma py_or_month a b : opt_ok (fun v => (1 <=? v) && (v <=? 12)) a = true -> 1 <= b <= 12 ->
+  py_or a b = oget a b /\ 1 <= oget a b <= 12.
+Proof.
+  destruct a as [v|]; cbn; [|auto]. intros H Hb. destruct (v =? 0) eqn:E; [lia|]. split; [reflexivity|lia].
+Qed.
+
+Lemma stage_ym_ok d oy om :
+  Z.abs (f_months (rel d)) <= 11 ->
+  opt_ok (fun v => negb (v =? 0)) (a_year (ab d)) = true ->
+  opt_ok (fun v => (1 <=? v) && (v <=? 12)) (a_month (ab d)) = true ->
+  1 <= om <= 12 ->
+  stage_ym d oy om =
+  Ok ((12 * oget (a_year (ab d)) oy + (oget (a_month (ab d)) om - 1)
+       + 12 * f_years (rel d) + f_months (rel d)) / 12,
+      (12 * oget (a_year (ab d)) oy + (oget (a_month (ab d)) om - 1)
+       + 12 * f_years (rel d) + f_months (rel d)) mod 12 + 1).
+Proof.
+  intros Hm Hy Hmo Hom. unfold stage_ym.
+  rewrite (py_or_oget _ _ Hy). destruct (py_or_month _ _ Hmo Hom) as [-> Hr].
+  set (y0 := oget (a_year (ab d)) oy) in *. set (m0 := oget (a_month (ab d)) om) in *.
+  set (mo := f_months (rel d)) in *. set (ys := f_years (rel d)) in *.
+  destruct (mo =? 0) eqn:E0.
+  - f_equal. f_equal; lia.
+  - destruct (negb _) eqn:EA; [exfalso; lia|].
+    destruct (12 <? m0 + mo) eqn:E1; [f_equal; f_equal; lia|].
+    destruct (m0 + mo <? 1) eqn:E2; f_equal; f_equal; lia.
+Qed.
+
+Definition day_of (o : pydt) : Z :=
+  match o with PD _ _ d => d | PDT _ _ d _ _ _ _ => d end.
+
+Definition spec_base (d : rd) (o : pydt) (y1 m1 : Z) : pydt :=
+  let a := ab d in
+  let d1 := Z.min (oget (a_day a) (day_of o)) (dim y1 m1) in
+  match o with
+  | PD _ _ _ => PD y1 m1 d1
+  | PDT _ _ _ hh mi ss us =>
+      PDT y1 m1 d1 (oget (a_hour a) hh) (oget (a_minute a) mi) (oget (a_second a) ss) (oget (a_us a) us)
+  end.
+
+Lemma get_oget a b : get a b = oget a b.
+Proof. reflexivity. Qed.
+
+Lemma stage_replace_spec d o year month :
+  1 <= month <= 12 -> opt_ok (fun v => negb (v =? 0)) (a_day (ab d)) = true ->
+  res_opt (stage_replace d o year month) =
+  if valid_dt (spec_base d o year month) then Some (spec_base d o year month) else None.
+Proof.
+  intros Hm Hd. unfold stage_replace, spec_base.
+  destruct ((1 <=? month) && (month <=? 12)) eqn:EM; [|exfalso; lia]. cbn [negb].
+  destruct o as [oy om od | oy om od hh mi ss us]; cbn [day_of valid_dt];
+  rewrite (py_or_oget _ _ Hd); rewrite (Z.min_comm (dim year month)).
+  - set (day := Z.min _ _).
+    destruct (in_c_int year && in_c_int day) eqn:EC; cbn [negb].
+    + destruct (valid_ymd year month day); reflexivity.
+    + cbn [res_opt]. destruct (valid_ymd year month day) eqn:EV; [|reflexivity].
+      exfalso. pose proof (dim_pos year month). unfold valid_ymd, in_c_int in *. lia.
+  - set (day := Z.min _ _). rewrite !get_oget.
+    destruct (in_c_int year && in_c_int day && opt_in_c_int (a_hour (ab d)) &&
+              opt_in_c_int (a_minute (ab d)) && opt_in_c_int (a_second (ab d)) &&
+              opt_in_c_int (a_us (ab d))) eqn:EC; cbn [negb].
+    + destruct (valid_ymd year month day && valid_time _ _ _ _); reflexivity.
+    + cbn [res_opt].
+      destruct (valid_ymd year month day && valid_time _ _ _ _) eqn:EV; [|reflexivity].
+      exfalso. pose proof (dim_pos year month).
+      apply andb_prop in EV. destruct EV as [EV1 EV2].
+      assert (C1 : in_c_int year && in_c_int day = true) by (unfold valid_ymd, in_c_int in *; lia).
+      rewrite C1 in EC. cbn [andb] in EC.
+      unfold valid_time in EV2.
+      destruct (a_hour (ab d)) as [v1|], (a_minute (ab d)) as [v2|], (a_second (ab d)) as [v3|],
+               (a_us (ab d)) as [v4|]; cbn [opt_in_c_int oget andb] in *; unfold in_c_int in *; lia.
+Qed.
+
+(* ---------------------------------------------------------------- the main theorem *)
+Lemma wf_rd_inv d : wf_rd d = true ->
+  norm_rel (rel d) = true /\
+  opt_ok (fun v => negb (v =? 0)) (a_year (ab d)) = true /\
+  opt_ok (fun v => (1 <=? v) && (v <=? 12)) (a_month (ab d)) = true /\
+  opt_ok (fun v => negb (v =? 0)) (a_day (ab d)) = true /\
+  match wd d with Some (w, _) => (0 <=? w) && (w <=? 6) | None => true end = true.
+Proof.
+  unfold wf_rd. intros H. do 4 (apply andb_prop in H; destruct H as [H ?]).
+  repeat split; assumption.
+Qed.
+
+Lemma res_opt_bind {A B} (x : res A) (f : A -> res B) :
+  res_opt (bind x f) = match res_opt x with Some a => res_opt (f a) | None => None end.
+Proof. destruct x; reflexivity. Qed.
+
+Lemma bind_assoc {A B C} (x : res A) (f : A -> res B) (g : B -> res C) :
+  bind x (fun a => bind (f a) g) = bind (bind x f) g.
+Proof. destruct x; reflexivity. Qed.
+
+Definition ym_of (o : pydt) : Z * Z :=
+  match o with PD y m _ => (y, m) | PDT y m _ _ _ _ _ => (y, m) end.
+
+Definition spec_dur (d : rd) (o : pydt) (y1 m1 : Z) : Z :=
+  let r := rel d in
+  let leap := if (2 <? m1) && is_leap y1 then leapdays d else 0 in
+  match o with
+  | PD _ _ _ => f_days r + leap
+  | PDT _ _ _ _ _ _ _ =>
+      (f_days r + leap) * us_day + f_hours r * 3600000000 + f_minutes r * 60000000
+      + f_seconds r * us_sec + f_us r
+  end.
+
+(* spec_add, cut into the same pieces as the model *)
+Definition spec_body (d : rd) (o : pydt) : option pydt :=
+  let t := 12 * oget (a_year (ab d)) (fst (ym_of o)) + (oget (a_month (ab d)) (snd (ym_of o)) - 1)
+           + 12 * f_years (rel d) + f_months (rel d) in
+  let base := spec_base d o (t / 12) (t mod 12 + 1) in
+  if valid_dt base then
+    match at_lin base (lin base + spec_dur d o (t / 12) (t mod 12 + 1)) with
+    | None => None
+    | Some ret => spec_wd d ret
+    end
+  else None.
+
+Lemma spec_add_body d o :
+  spec_add d o = spec_body d (if carries_time d then promote o else o).
+Proof.
+  unfold spec_add, spec_body. cbv zeta.
+  destruct (if carries_time d then promote o else o) as [y m dd | y m dd hh mi ss us];
+  cbn [ym_of fst snd spec_base day_of spec_dur];
+  match goal with |- (if negb ?c then _ else _) = _ => destruct c end; reflexivity.
+Qed.
+
+Definition add_body (d : rd) (o : pydt) : res pydt :=
+  bind (stage_ym d (fst (ym_of o)) (snd (ym_of o))) (fun ym =>
+  bind (stage_replace d o (fst ym) (snd ym)) (fun repl =>
+  bind (stage_td d (fst ym) (snd ym)) (fun t =>
+  bind (dt_add_us repl t) (fun ret => stage_wd d ret)))).
+
+Lemma add_dt_body d o : add_dt d o = add_body d (if has_time d then promote o else o).
+Proof.
+  unfold add_dt, add_body. cbv zeta.
+  destruct (if has_time d then promote o else o); cbn [ym_of fst snd];
+  destruct (stage_ym d y m) as [[yy mm]|]; reflexivity.
+Qed.
+
+Lemma valid_promote o : valid_dt o = true -> valid_dt (promote o) = true.
+Proof. destruct o; cbn; [|auto]. intros ->. reflexivity. Qed.
+
+Lemma valid_month o : valid_dt o = true -> 1 <= snd (ym_of o) <= 12.
+Proof.
+  destruct o; cbn [valid_dt ym_of snd]; unfold valid_ymd; lia.
+Qed.
+
+Lemma no_time_fields d : carries_time d = false ->
+  f_hours (rel d) = 0 /\ f_minutes (rel d) = 0 /\ f_seconds (rel d) = 0 /\ f_us (rel d) = 0.
+Proof.
+  unfold carries_time. intros H. apply orb_false_elim in H. destruct H as [H _].
+  apply negb_false_iff in H. lia.
+Qed.
+
+Lemma body_spec d o : wf_rd d = true -> valid_dt o = true ->
+  (is_datetime o = false -> carries_time d = false) ->
+  res_opt (add_body d o) = spec_body d o.
+Proof.
+  intros W V NT. destruct (wf_rd_inv d W) as (Wn & Wy & Wm & Wd & Ww).
+  unfold add_body, spec_body. cbv zeta.
+  rewrite stage_ym_ok; [| unfold norm_rel in Wn; lia | exact Wy | exact Wm | apply valid_month; exact V].
+  cbn [bind fst snd].
+  set (t := 12 * oget (a_year (ab d)) (fst (ym_of o)) + (oget (a_month (ab d)) (snd (ym_of o)) - 1)
+            + 12 * f_years (rel d) + f_months (rel d)).
+  assert (Hm1 : 1 <= t mod 12 + 1 <= 12) by lia.
+  rewrite res_opt_bind, (stage_replace_spec d o (t / 12) (t mod 12 + 1) Hm1 Wd).
+  set (base := spec_base d o (t / 12) (t mod 12 + 1)).
+  destruct (valid_dt base) eqn:VB; [|reflexivity].
+  unfold stage_td. rewrite bind_assoc, res_opt_bind.
+  rewrite add_dur by (apply valid_on_line; exact VB).
+  set (U := rel_us _).
+  assert (EU : match base with PD _ _ _ => U / us_day | PDT _ _ _ _ _ _ _ => U end
+               = spec_dur d o (t / 12) (t mod 12 + 1)).
+  { unfold U, spec_dur, rel_us, nz. cbn [f_days f_hours f_minutes f_seconds f_us].
+    destruct o as [oy om od | oy om od hh mi ss us]; cbn [base spec_base].
+    - destruct (no_time_fields d (NT eq_refl)) as (-> & -> & -> & ->).
+      destruct (negb (leapdays d =? 0)) eqn:EL; destruct (2 <? t mod 12 + 1); destruct (is_leap (t / 12));
+      cbn [andb]; unfold us_day, us_sec; lia.
+    - destruct (negb (leapdays d =? 0)) eqn:EL; destruct (2 <? t mod 12 + 1); destruct (is_leap (t / 12));
+      cbn [andb]; unfold us_day, us_sec; lia. }
+  rewrite EU.
+  destruct (at_lin base _) as [ret|] eqn:ER; [|reflexivity].
+  apply at_lin_on_line in ER. destruct ER as (L & _ & _).
+  apply stage_wd_spec; assumption.
+Qed.
+
+Theorem add_dt_spec d o : wf_rd d = true -> valid_dt o = true ->
+  res_opt (add_dt d o) = spec_add d o.
+Proof.
+  intros W V. rewrite add_dt_body, spec_add_body, has_time_carries_time.
+  apply body_spec; [exact W | |].
+  - destruct (carries_time d); [apply valid_promote|]; exact V.
+  - destruct (carries_time d) eqn:E; [|reflexivity].
+    destruct o; cbn; discriminate.
+Qed.
+
+(* non-vacuity: a delta with a month shift that clips, a time replacement, a carry-sized duration
+   and a backwards weekday satisfies the guard, and the theorem's two sides compute to the
+   documented value: 2000-01-31 12:00 + (months=+1, hour=23, minutes=+59, days=+1, TU(-2))
+   = Feb 29 23:00 -> +1 day 59 min = Mar 1 23:59 (Wed) -> second Tuesday on or before = Feb 22 *)
+Definition ex_delta : rd :=
+  mkrd (mkrel 0 1 1 0 59 0 0) 0 (mkabs None None None (Some 23) None None None) (Some (1, Some (-2))).
+Example add_dt_spec_nonvacuous :
+  wf_rd ex_delta = true /\ valid_dt (PDT 2000 1 31 12 0 0 0) = true /\
+  add_dt ex_delta (PDT 2000 1 31 12 0 0 0) = Ok (PDT 2000 2 22 23 59 0 0) /\
+  spec_add ex_delta (PDT 2000 1 31 12 0 0 0) = Some (PDT 2000 2 22 23 59 0 0).
+Proof. vm_compute. repeat split; reflexivity. Qed.
+
+(* the guard is needed: with year=0 the code's [self.year or other.year] keeps the operand's year,
+   the documented replacement would produce the invalid year 0 *)
+Example add_dt_spec_guard_needed :
+  let d := mkrd rel0 0 (mkabs (Some 0) None None None None None None) None in
+  wf_rd d = false /\ add_dt d (PD 2000 1 31) = Ok (PD 2000 1 31) /\ spec_add d (PD 2000 1 31) = None.
+Proof. vm_compute. repeat split; reflexivity. Qed.
+
+(* ---------------------------------------------------------------- operators *)
+Lemma radd_eq_add d o : radd d o = add_dt d o.
+Proof. reflexivity. Qed.
+
+Lemma sub_is_add_neg d o : rsub d o = add_dt (neg d) o.
+Proof. reflexivity. Qed.
+
+(* ---------------------------------------------------------------- promotion *)
+Lemma stage_replace_kind d o y m r : stage_replace d o y m = Ok r -> is_datetime r = is_datetime o.
+Proof.
+  unfold stage_replace. destruct (negb _); [discriminate|].
+  destruct o; destruct (negb _); try discriminate;
+  match goal with |- (if ?c then _ else _) = _ -> _ => destruct c end; try discriminate;
+  intros H; injection H as <-; reflexivity.
+Qed.
+
+Lemma dt_add_us_kind o t r : dt_add_us o t = Ok r -> is_datetime r = is_datetime o.
+Proof.
+  unfold dt_add_us. destruct o;
+  match goal with |- (if ?c then _ else _) = _ -> _ => destruct c end; try discriminate;
+  intros H; injection H as <-; [apply is_datetime_date_of_ord | apply is_datetime_dt_of_lin].
+Qed.
+
+Lemma bind_ok {A B} (r : res A) (f : A -> res B) b :
+  bind r f = Ok b -> exists a, r = Ok a /\ f a = Ok b.
+Proof. destruct r; cbn; [eauto | discriminate]. Qed.
+
+Lemma stage_wd_kind d o r : stage_wd d o = Ok r -> is_datetime r = is_datetime o.
+Proof.
+  unfold stage_wd. destruct (wd d) as [[w n]|].
+  - intros H. apply bind_ok in H. destruct H as (t & _ & H). eapply dt_add_us_kind; exact H.
+  - intros H; injection H as <-; reflexivity.
+Qed.
+
+(* a date operand is promoted to a datetime exactly when the delta carries time information *)
+Theorem promotion_iff_has_time d o r : add_dt d o = Ok r ->
+  is_datetime r = carries_time d || is_datetime o.
+Proof.
+  rewrite add_dt_body, has_time_carries_time. unfold add_body. intros H.
+  apply bind_ok in H. destruct H as (ym & _ & H).
+  apply bind_ok in H. destruct H as (repl & H1 & H).
+  apply bind_ok in H. destruct H as (t & _ & H).
+  apply bind_ok in H. destruct H as (ret & H2 & H3).
+  rewrite (stage_wd_kind _ _ _ H3), (dt_add_us_kind _ _ _ H2), (stage_replace_kind _ _ _ _ _ H1).
+  destruct (carries_time d); destruct o; reflexivity.
+Qed.
